@@ -178,7 +178,7 @@ Section Proofs.
       map fst fs0 = map te_field (s_table sd) ->
       Forall (fun e => exists x,
                   lookup (te_field e) (apply_defaults (s_defaults sd) fs0) = Some x
-                  /\ (te_omit e = true -> is_zero_of (te_kind e) x = true)
+                  /\ (te_omit e = true -> memb (te_field e) (s_required sd) = false -> is_zero_of (te_kind e) x = true)
                   /\ ex_ok (te_kind e) x) (s_table sd) ->
       ex_ok (KPtrS n) (VPtr fs0).
 
@@ -186,7 +186,7 @@ Section Proofs.
     map fst init = map te_field (s_table sd)
     /\ Forall (fun e => exists x,
                   lookup (te_field e) (apply_defaults (s_defaults sd) init) = Some x
-                  /\ (te_omit e = true -> is_zero_of (te_kind e) x = true)
+                  /\ (te_omit e = true -> memb (te_field e) (s_required sd) = false -> is_zero_of (te_kind e) x = true)
                   /\ ex_ok (te_kind e) x) (s_table sd).
 
   Record sd_consistent (sd : sdef) : Prop := {
@@ -213,7 +213,7 @@ Section Proofs.
       specialize (H2 e He).
       destruct (lookup (te_field e) (apply_defaults (s_defaults sd) init)) as [x|]; [|discriminate].
       apply andb_true_iff in H2 as [Ha Hb]. exists x. split; [reflexivity|]. split.
-      + intro Ho. rewrite Ho in Ha. exact Ha.
+      + intros Ho Hr. rewrite Ho, Hr in Ha. exact Ha.
       + apply Hex. exact Hb.
   Qed.
 
@@ -290,10 +290,10 @@ Section Proofs.
   Qed.
 
   (* ---------------------------------------------------------------- one struct level *)
-  Lemma wf_fields_names wv tbl fs : wf_fields wv tbl fs = true -> map fst fs = map te_field tbl.
+  Lemma wf_fields_names wv req tbl fs : wf_fields wv req tbl fs = true -> map fst fs = map te_field tbl.
   Proof.
     revert fs. induction tbl as [|e tbl IH]; intros [|[f v] fs]; cbn; intro H; try discriminate; [reflexivity|].
-    apply andb_true_iff in H as [H H3]. apply andb_true_iff in H as [H1 _].
+    apply andb_true_iff in H as [H H3]. apply andb_true_iff in H as [H _]. apply andb_true_iff in H as [H1 _].
     apply beqb_true in H1. subst f. f_equal. apply IH; exact H3.
   Qed.
 
@@ -308,9 +308,9 @@ Section Proofs.
       incl tbl' (s_table sd) ->
       NoDup (map te_field tbl') -> NoDup (map te_key tbl') ->
       (forall e, In e tbl' -> exists x, lookup (te_field e) r = Some x
-                                        /\ (te_omit e = true -> is_zero_of (te_kind e) x = true)
+                                        /\ (te_omit e = true -> memb (te_field e) (s_required sd) = false -> is_zero_of (te_kind e) x = true)
                                         /\ ex_ok (te_kind e) x) ->
-      wf_fields (wf_value f) tbl' fs' = true ->
+      wf_fields (wf_value f) (s_required sd) tbl' fs' = true ->
       exists kvs,
         marshal_fields (mval f) tbl' fs' = Some kvs
         /\ fold_left (dstep strict (dval f) sd) kvs (Some r) = Some (overlay r fs')
@@ -319,7 +319,8 @@ Section Proofs.
     Proof.
       induction tbl' as [|e tbl' IHt]; intros [|[g v] fs'] r Hincl Hndf Hndk Hex Hwf; cbn in Hwf; try discriminate.
       - exists []. cbn. repeat split; [constructor|intros k []].
-      - apply andb_true_iff in Hwf as [Hwf Hwf3]. apply andb_true_iff in Hwf as [Hwf1 Hwf2].
+      - apply andb_true_iff in Hwf as [Hwf Hwf3]. apply andb_true_iff in Hwf as [Hwf Hwf2].
+        apply andb_true_iff in Hwf as [Hwf1 Hreq].
         apply beqb_true in Hwf1. subst g.
         inversion Hndf as [|? ? Hnf Hndf']; subst. inversion Hndk as [|? ? Hnk Hndk']; subst.
         assert (Hin : In e (s_table sd)) by (apply Hincl; left; reflexivity).
@@ -328,8 +329,10 @@ Section Proofs.
         cbn [marshal_fields]. rewrite beqb_refl.
         destruct (te_omit e && is_empty v) eqn:Eom.
         + (* omitted: the field keeps its default, which is the zero value the record holds *)
-          apply andb_true_iff in Eom as [Eo _].
-          apply is_zero_of_zero in Hwf2. specialize (Hzx Eo). apply is_zero_of_zero in Hzx.
+          apply andb_true_iff in Eom as [Eo Eem].
+          assert (Hnr : memb (te_field e) (s_required sd) = false).
+          { destruct (memb (te_field e) (s_required sd)); [|reflexivity]. rewrite Eem in Hreq. discriminate. }
+          apply is_zero_of_zero in Hwf2. specialize (Hzx Eo Hnr). apply is_zero_of_zero in Hzx.
           assert (Hrs : rset (te_field e) v r = r) by (apply rset_same; congruence).
           destruct (IHt fs' r Hincl' Hndf' Hndk') as [kvs [Hm [Hf [Hnd Hk]]]]; [|exact Hwf3|].
           { intros e' He'. apply Hex. right; exact He'. }
@@ -354,7 +357,7 @@ Section Proofs.
 
     Lemma struct_roundtrip init fs :
       init_ok sd init ->
-      wf_fields (wf_value f) (s_table sd) fs = true ->
+      wf_fields (wf_value f) (s_required sd) (s_table sd) fs = true ->
       exists kvs,
         marshal_fields (mval f) (s_table sd) fs = Some kvs
         /\ ustruct strict (dval f) sd init (JObj kvs) = Some fs.
@@ -371,8 +374,8 @@ Section Proofs.
         assert (Hd : (if s_handwritten sd then dedup_last kvs else kvs) = kvs).
         { destruct (s_handwritten sd); [apply dedup_last_nodup; exact Hnd|reflexivity]. }
         rewrite Hd. etransitivity; [exact Hf|]. f_equal. apply overlay_all.
-        + rewrite (wf_fields_names _ _ _ Hwf). apply (sc_fields _ Hcons).
-        + rewrite (wf_fields_names _ _ _ Hwf). unfold apply_defaults. rewrite map_map.
+        + rewrite (wf_fields_names _ _ _ _ Hwf). apply (sc_fields _ Hcons).
+        + rewrite (wf_fields_names _ _ _ _ Hwf). unfold apply_defaults. rewrite map_map.
           rewrite <- Hnames. clear. induction init as [|[g y] init IHi]; cbn; [reflexivity|].
           rewrite IHi. destruct (lookup g (s_defaults sd)); reflexivity.
     Qed.
